@@ -196,3 +196,23 @@ def string_prefix(node):
                 break
         return out
     return None
+
+
+def terminal(block):
+    """The statement with which a block unconditionally leaves (return, raise,
+    continue, break as its last statement), else None.  Rules use this rather
+    than ``block[0]`` so that a log line ahead of the exit does not matter."""
+    if block and isinstance(block[-1], (ast.Return, ast.Raise, ast.Continue, ast.Break)):
+        return block[-1]
+    return None
+
+
+def leaves_with(block, kind, value=None):
+    """Block ends in a statement of the given kind (and, for return, with the
+    given normalised value)."""
+    t = terminal(block)
+    if not isinstance(t, kind):
+        return False
+    if value is not None:
+        return isinstance(t, ast.Return) and t.value is not None and norm(t.value) == value
+    return True
